@@ -12,3 +12,9 @@ P.trusted += G.P.trusted
 for t in G.P.tasks:
     if t.name in ("basic.onebox", "compensated"):
         P.tasks.append(Task(P, "force_purity." + t.name, t.fn, t.func, files=G.P.files, timeout=t.timeout, order=t.order, z3_ms=t.z3_ms, polyid_s=t.polyid_s))
+
+# reversibility also needs the FIRST force evaluation of a step to use the integrator's own pair filter, whatever integrator ran
+# before (a stale filter makes the first stage differ from its mirror image in the backward pass)
+from contracts import C02_modes as M
+for t in M.P.tasks:
+    P.tasks.append(Task(P, "force_purity." + t.name, t.fn, t.func, files=t.files or M.P.files, timeout=t.timeout))
